@@ -19,15 +19,20 @@ import (
 
 // Opts are the runtime options of one Parse call.
 type Opts struct {
-	Memoize          bool        `json:"memoize,omitempty"`
-	Debug            bool        `json:"debug,omitempty"`
-	Stats            bool        `json:"stats,omitempty"`
-	Recover          *bool       `json:"recover,omitempty"` // nil: parser default
-	AllowInvalidUTF8 bool        `json:"allow_invalid_utf8,omitempty"`
-	Entrypoint       string      `json:"entrypoint,omitempty"`
-	MaxExpr          uint64      `json:"max_expr,omitempty"`
-	InitState        [][2]string `json:"init_state,omitempty"`
-	UseReader        bool        `json:"use_reader,omitempty"`
+	Memoize          bool   `json:"memoize,omitempty"`
+	Debug            bool   `json:"debug,omitempty"`
+	Stats            bool   `json:"stats,omitempty"`
+	Recover          *bool  `json:"recover,omitempty"` // nil: parser default
+	AllowInvalidUTF8 bool   `json:"allow_invalid_utf8,omitempty"`
+	Entrypoint       string `json:"entrypoint,omitempty"`
+	MaxExpr          uint64 `json:"max_expr,omitempty"`
+	// Shuffle, when non-zero, permutes the option list handed to Parse (options
+	// are independent of each other; their order must not matter).
+	Shuffle uint64 `json:"shuffle,omitempty"`
+	// Filename given to Parse; "" stands for "f.txt", "<empty>" for the empty name.
+	Filename  string      `json:"filename,omitempty"`
+	InitState [][2]string `json:"init_state,omitempty"`
+	UseReader bool        `json:"use_reader,omitempty"`
 	// StatsCarry is the ExprCnt already present in the Stats value handed to the
 	// Statistics option (a Stats value reused from an earlier parse).
 	StatsCarry uint64 `json:"stats_carry,omitempty"`
@@ -88,6 +93,41 @@ func (p *Parser) Grammar() *gen.Grammar {
 	return p.grammar
 }
 
+// ShuffleOpts permutes n options deterministically from seed.
+func ShuffleOpts(n int, seed uint64, swap func(i, j int)) {
+	for i := n - 1; i > 0; i-- {
+		seed = seed*6364136223846793005 + 1442695040888963407
+		swap(i, int((seed>>33)%uint64(i+1)))
+	}
+}
+
+// FileName is the file name argument of the Parse call.
+func (o *Opts) FileName() string {
+	switch o.Filename {
+	case "":
+		return "f.txt"
+	case "<empty>":
+		return ""
+	}
+	return o.Filename
+}
+
+// sameErr reports identity of two error values, also for error types that
+// are slices (an error list handed on unchanged), which == cannot compare.
+func sameErr(a, b error) bool {
+	va, vb := reflect.ValueOf(a), reflect.ValueOf(b)
+	if va.Type() != vb.Type() {
+		return false
+	}
+	if va.Kind() == reflect.Slice {
+		return va.Len() == vb.Len() && va.Pointer() == vb.Pointer()
+	}
+	if !va.Type().Comparable() {
+		return false
+	}
+	return a == b
+}
+
 // ErrInfo describes one reported error.
 type ErrInfo struct {
 	Msg           string `json:"msg"`
@@ -141,7 +181,7 @@ func (p *Parser) Exec(c *Call, cl *simrt.Client) *CallResult {
 	ctx := kernel.NewCtx(&plan)
 	start := cl.Steps
 	simrt.Yield(simrt.YEntry)
-	val, err, esc, cnt := p.Parse("f.txt", c.Input, &c.Opts, ctx)
+	val, err, esc, cnt := p.Parse(c.Opts.FileName(), c.Input, &c.Opts, ctx)
 	simrt.Yield(simrt.YExit)
 	r := &CallResult{ctx: ctx, ExprCnt: cnt, Steps: cl.Steps - start, Aborted: cl.Aborted, Overflow: ctx.Overflow, Backward: ctx.Backward, Nested: ctx.NestedRuns, StatsDigest: ctx.StatsDigest}
 	r.Value = kernel.Render(val)
@@ -166,7 +206,7 @@ func (p *Parser) Exec(c *Call, cl *simrt.Client) *CallResult {
 			if e.Inner != nil {
 				info.InnerMsg = e.Inner.Error()
 				for i := range ctx.Injected {
-					if ctx.Injected[i].Err != nil && ctx.Injected[i].Err == e.Inner {
+					if ctx.Injected[i].Err != nil && sameErr(ctx.Injected[i].Err, e.Inner) {
 						info.InjectedIdx = i
 					}
 				}
